@@ -145,6 +145,31 @@ def twin(text):
     return t if t != text else text
 
 
+_STRESS = {}
+
+
+def stress_predecessors(chk):
+    """files that push the analysis to its limits before the probe is analysed in the same process: whatever they leave behind in
+    process-wide state (counters, caches, guards not released on an early exit or a panic) must not reach the next verdict"""
+    if _STRESS:
+        return _STRESS
+
+    def nest(n, open_, close, core='x + 1'):
+        return 'pragma solidity 0.8.16;\ncontract D {\n    uint256 x;\n    function f() public {\n        %s%s%s;\n    }\n}\n' % (open_ * n, core, close * n)
+
+    def blocks(n, w):
+        return 'pragma solidity 0.8.16;\ncontract D {\n    uint256 x;\n    function f() public {\n        %s%s%s\n    }\n}\n' % ('{ ' * n, 'x = x + 1; ' * w, ' }' * n)
+    _STRESS['600 statements inside blocks nested 600 deep'] = chk.native.file(blocks(600, 600))
+    _STRESS['an expression nested 1200 deep'] = chk.native.file(nest(1200, '(', ')'))
+    _STRESS['a file the parser rejects'] = chk.native.file('pragma solidity 0.8.16;\ncontract D { function f( public { x = ; } }\n')
+    if not chk.quick:
+        _STRESS['an expression nested 3000 deep'] = chk.native.file(nest(3000, '(', ')'))
+        _STRESS['a call with 700 arguments nested 550 deep'] = chk.native.file(nest(550, 'g(', ')', ', '.join(['x + 1'] * 700)))
+        _STRESS['a file with 2000 functions'] = chk.native.file('pragma solidity 0.8.16;\ncontract D {\n%s}\n' % ''.join(
+            '    function f%d(uint256 a) public returns (uint256) { return a + %d; }\n' % (i, i) for i in range(2000)))
+    return _STRESS
+
+
 def native_sequences(chk):
     """the real code, one process per job list: a verdict must not depend on what was analysed before in the same process"""
     b = sol.TreeBuilder()
@@ -162,11 +187,13 @@ def native_sequences(chk):
                 'patterns in reverse order, repeated': [['analyze', cat, d, p_main] for d in reversed(dets)] * 2,
                 'other category first': [['analyze', c2, d2, p_twin] for c2 in PROBE_DETECTORS if c2 != cat for d2 in PROBE_DETECTORS[c2][:2]] + [['analyze', cat, d, p_main] for d in dets],
             }
+            for what, pre in (stress_predecessors(chk).items() if t is texts[0] else ()):
+                sequences['after %s' % what] = [['bigstack', 'analyze', cat, d, pre] for d in dets] + [['analyze', cat, d, p_main] for d in dets]
             for what, jobs in sequences.items():
                 res = chk.native.run(jobs)
                 chk.states += len(jobs)
                 for j, r in zip(jobs, res):
-                    if j[3] != p_main:
+                    if j[0] == 'bigstack' or j[3] != p_main:
                         continue
                     want = alone[dets.index(j[2])]
                     if r != want:
@@ -230,7 +257,7 @@ def dir_model(chk, cat):
 def body(chk):
     chk.bounds = {'purity': 'analyze_for_* executed from MIR on a probe file with symbolic file number and ARBITRARY iteration order of every HashSet/HashMap; %d detectors' % sum(len(v) for v in PROBE_DETECTORS.values()),
                   'directory model': 'one file with / without siblings and sub-directories, every listing order, both orders of two patterns',
-                  'native sequences': '3 files x 17 detectors x 4 call sequences in one process (incl. an equal-length file analysed just before), directory with equal-length siblings',
+                  'native sequences': '3 files x 17 detectors x 4 call sequences in one process (an equal-length file analysed just before / interleaved, reversed and repeated patterns, other category first) + stress predecessors analysed first on a 2 GiB stack (600 statements inside blocks nested 600 deep, an expression nested 1200 deep, an unparsable file; thorough: nested 3000 deep, 700 call arguments nested 550 deep, 2000 functions); directory with equal-length siblings',
                   'outside': 'concurrent calls from several threads (neither engine models threads); state inside the regex crate'}
     chk.assumptions = ['parser stubbed by the executed tree (its result is a function of the text)', 'regex contract', 'global-state scan of the MIR is syntactic']
     for cat in PROBE_DETECTORS:
